@@ -290,7 +290,7 @@ def strategy(n):
 
 
 def run_shard(ctx):
-    n = 300 if ctx.tier == "quick" else 4000
+    n = 300 if ctx.tier == "quick" else 20000
 
     def body(case):
         cl = run_case(case, set())
